@@ -433,7 +433,8 @@ func rulesC06(c *Ctx) {
 			for _, r := range returnsOf(commit) {
 				if facts.KnownNil(r.Block(), ev, false) {
 					rv := resolve(r.Results[len(r.Results)-1])
-					if rv == ev || sameValue(rv, ev) {
+					// the error itself, or an error built there (a wrapper naming the failed step)
+					if rv == ev || sameValue(rv, ev) || isNonNilErrValue(rv, 0) {
 						ret = true
 					}
 				}
